@@ -247,6 +247,10 @@ def _content(chunks_hex, ctype):
     return Content(ct, lambda: list(chunks))
 
 
+# (non-ASCII on purpose: the text ends up in "Failed expectation" details and MismatchError tracebacks)
+MISMATCH_PREFIX = "mismatch-\xe9\u2603-"
+
+
 class TokMismatch:
     def __init__(self, eid, details, env=None):
         self.eid = eid
@@ -254,7 +258,7 @@ class TokMismatch:
         self._env = env
 
     def describe(self):
-        return "mismatch-%s" % self.eid
+        return MISMATCH_PREFIX + self.eid
 
     def get_details(self):
         from testtools.content import Content
